@@ -32,13 +32,18 @@ type isoCfg struct {
 	Trust      int  // 0 TrustProxy off (forwarding headers honoured); 1 on, peer trusted; 2 on, peer not trusted
 	ProxyHdr   bool // ProxyHeader = X-Forwarded-For
 	Mount      bool // a sub-app with an ErrorHandler of its own is mounted under /admin
-	SiteVars   bool // a middleware binds the app's site-wide view variables (one map it keeps) on every request
+	// ViewsOn: 0 the root app has a template engine; 1 only the sub-app mounted under /admin has
+	// one (none anywhere if nothing is mounted); 2 no engine at all (Render reads a template file)
+	ViewsOn  int
+	BigBuf   bool // ReadBufferSize 16 KiB instead of 4 KiB
+	SiteVars bool // a middleware binds the app's site-wide view variables (one map it keeps) on every request
 }
 
 // widen draws the configuration dimensions added after the first round.
 func (c *isoCfg) widen(r interface {
 	Chance(int, int) bool
 	Intn(int) int
+	PickW(...int) int
 }) {
 	c.NoMW = r.Chance(1, 2)
 	c.EHState = r.Chance(1, 2)
@@ -47,11 +52,12 @@ func (c *isoCfg) widen(r interface {
 	c.ProxyHdr = r.Chance(1, 3)
 	c.Mount = r.Chance(1, 2)
 	c.SiteVars = r.Chance(1, 3)
+	c.ViewsOn = r.PickW(2, 1, 1)
 }
 
 func (c isoCfg) String() string {
-	return fmt.Sprintf("custom=%v passlocals=%v immutable=%v cs=%v strict=%v nomw=%v ehstate=%v touch=%v trust=%d proxyhdr=%v mount=%v sitevars=%v",
-		c.Custom, c.PassLocals, c.Immutable, c.CaseSens, c.Strict, c.NoMW, c.EHState, c.Touch, c.Trust, c.ProxyHdr, c.Mount, c.SiteVars)
+	return fmt.Sprintf("custom=%v passlocals=%v immutable=%v cs=%v strict=%v nomw=%v ehstate=%v touch=%v trust=%d proxyhdr=%v mount=%v sitevars=%v viewson=%d bigbuf=%v",
+		c.Custom, c.PassLocals, c.Immutable, c.CaseSens, c.Strict, c.NoMW, c.EHState, c.Touch, c.Trust, c.ProxyHdr, c.Mount, c.SiteVars, c.ViewsOn, c.BigBuf)
 }
 
 type customCtx struct {
@@ -321,6 +327,7 @@ func fileDir() string {
 		fileRoot = d
 		_ = os.WriteFile(filepath.Join(d, "a.txt"), []byte(strings.Repeat("plain text file served by SendFile\n", 40)), 0o644)
 		_ = os.WriteFile(filepath.Join(d, "b.html"), []byte("<html><body>"+strings.Repeat("<p>hello</p>", 60)+"</body></html>\n"), 0o644)
+		_ = os.WriteFile(filepath.Join(d, "probe.tmpl"), []byte("{{range $k, $v := .}}{{$k}}={{$v}};{{end}}"), 0o644)
 		_ = os.WriteFile(filepath.Join(d, "c.json"), []byte(`{"k":"`+strings.Repeat("v", 500)+`"}`), 0o644)
 	})
 	return fileRoot
@@ -373,12 +380,12 @@ var probeRoutes = []string{
 	"/probeplus/:x-:y?/+",
 	"/probeplain",
 	"/p2/:p1/:p2?/:p3?/:p4?",
+	"/admin/probeplain",
 }
 
 func isoBuild(cfg isoCfg) (*fiber.App, *isoSink) {
 	s := &isoSink{}
 	fc := fiber.Config{
-		Views:             &capViews{s},
 		PassLocalsToViews: cfg.PassLocals,
 		Immutable:         cfg.Immutable,
 		CaseSensitive:     cfg.CaseSens,
@@ -399,6 +406,12 @@ func isoBuild(cfg isoCfg) (*fiber.App, *isoSink) {
 			}
 			return fiber.DefaultErrorHandler(c, err)
 		},
+	}
+	if cfg.ViewsOn == 0 {
+		fc.Views = &capViews{s}
+	}
+	if cfg.BigBuf {
+		fc.ReadBufferSize = 16384 // request lines of several KiB; the write buffer stays at 4 KiB
 	}
 	switch cfg.Trust {
 	case 1:
@@ -433,8 +446,13 @@ func isoBuild(cfg isoCfg) (*fiber.App, *isoSink) {
 			return c.Next()
 		})
 	}
+	var sub *fiber.App
 	if cfg.Mount {
-		sub := fiber.New(fiber.Config{ErrorHandler: func(c fiber.Ctx, err error) error {
+		var subViews fiber.Views
+		if cfg.ViewsOn == 1 {
+			subViews = &capViews{s}
+		}
+		sub = fiber.New(fiber.Config{Views: subViews, ErrorHandler: func(c fiber.Ctx, err error) error {
 			s.ehObserve(c, err, "sub:/admin")
 			s.note(c)
 			code := fiber.StatusInternalServerError
@@ -770,8 +788,11 @@ func isoBuild(cfg isoCfg) (*fiber.App, *isoSink) {
 
 		// view bindings as the Views engine receives them
 		s.lastBind = ""
-		rerr := c.Render("probe", fiber.Map{"own": "probe"})
-		v["view-bind"] = canon(map[string]any{"bind": s.lastBind, "err": errStr(rerr), "body": string(c.Response().Body())})
+		// (whichever engine renders — the root's, a mounted app's, or none: then the name is a
+		// template file — the bindings are merged into the map the handler passes)
+		pb := fiber.Map{"own": "probe"}
+		rerr := c.Render(filepath.Join(dir, "probe.tmpl"), pb)
+		v["view-bind"] = canon(map[string]any{"bind": s.lastBind, "map-after-render": normalise(pb), "err": errStr(rerr), "body": string(c.Response().Body())})
 		c.Response().ResetBody()
 		c.Response().Header.Del(fiber.HeaderContentType)
 
@@ -810,8 +831,49 @@ func isoBuild(cfg isoCfg) (*fiber.App, *isoSink) {
 		}
 		return c.SendString(sb.String())
 	}
-	for _, p := range probeRoutes {
+	for _, p := range probeRoutes[:len(probeRoutes)-1] {
 		app.All(p, w(probe))
 	}
+	// the last probe route lives under /admin: on the mounted sub-app if there is one
+	if sub != nil {
+		sub.All("/probeplain", w(probe))
+	} else {
+		app.All("/admin/probeplain", w(probe))
+	}
+
+	// echoes a value of the request as the whole response body, the way the request names
+	app.All("/echo/:val", w(func(c fiber.Ctx) error {
+		var v string
+		switch c.Query("via") {
+		case "path":
+			v = c.Path()
+		case "query":
+			v = c.Query("q")
+		case "header":
+			v = c.Get("X-Echo")
+		case "body":
+			v = string(c.Body())
+		default:
+			v = c.Params("val")
+		}
+		if c.Query("probe") == "1" {
+			s.probes++
+			if s.seenBefore(c) {
+				s.reused = true
+			}
+			s.vec = map[string]string{"echo-length": canon(len(v))}
+		}
+		switch c.Query("how") {
+		case "send":
+			return c.Send(c.Body())
+		case "write":
+			_, err := c.Write([]byte(v))
+			return err
+		case "writestring":
+			_, err := c.WriteString(v)
+			return err
+		}
+		return c.SendString(v)
+	}))
 	return app, s
 }
